@@ -530,6 +530,7 @@ func c06exec(c *h.Ctx, cs *h.Case) {
 	var env *c06env
 	var ovl *onet.Overlay
 	var net *c06net
+	var nnet *c06nnet
 	var insts []interface{ Done() }
 	everReq, locals := map[onet.TreeID]bool{}, map[onet.TreeID]bool{}
 	history := func() {
@@ -662,6 +663,14 @@ func c06exec(c *h.Ctx, cs *h.Case) {
 					env = c06getEnv()
 				}
 				obs = cc.netOp(cs, env, &net, tk, op)
+				return
+			}
+			if strings.HasPrefix(tk[1], "m.") {
+				// any number of cooperating servers (c06nnet.go)
+				if env == nil {
+					env = c06getEnv()
+				}
+				obs = cc.nnetOp(cs, env, &nnet, tk, op)
 				return
 			}
 			switch tk[1] {
@@ -1894,6 +1903,57 @@ func c06gen(c *h.Ctx, yield func(*h.Case)) {
 			emit("net schedule", ops)
 		}
 	}
+	// --- four cooperating servers (c06nnet.go): trees registered at random servers, asked for by other servers from
+	// servers that hold them, from servers that only asked for them themselves (relay: no answer until they have it, then a
+	// duplicate of the request is answered) — any order, duplicates, (lossy variant) drops, withdrawals, expiry --------
+	for i := 0; i < c.Pick(28, 300); i++ {
+		ops, _, ts := world()
+		lossy := i%4 == 3
+		nsite := func() int { return r.Intn(c06nSites) }
+		otherThan := func(s int) int { return (s + 1 + r.Intn(c06nSites-1)) % c06nSites }
+		holder := map[int]int{}
+		for _, t := range ts[:4] {
+			holder[t.tid] = nsite()
+			ops = append(ops, fmt.Sprintf("c06 m.register %d %d", holder[t.tid], t.label))
+		}
+		var alpha []string
+		for _, t := range ts[:4] {
+			a := otherThan(holder[t.tid])
+			ask := fmt.Sprintf("c06 m.ask %d %d %d %d", a, holder[t.tid], t.tid, r.Intn(2))
+			ops = append(ops, ask)
+			// a third server asks the one that has only asked itself
+			b := otherThan(a)
+			relay := fmt.Sprintf("c06 m.ask %d %d %d %d", b, a, t.tid, r.Intn(2))
+			if r.Intn(2) == 0 {
+				ops = append(ops, relay)
+			}
+			s1 := nsite()
+			alpha = append(alpha, ask, relay, fmt.Sprintf("c06 m.ask %d %d %d %d", s1, otherThan(s1), t.tid, r.Intn(2)))
+		}
+		for j := 0; j < 16; j++ {
+			alpha = append(alpha, fmt.Sprintf("c06 m.deliver %d %d", nsite(), r.Intn(5)))
+		}
+		for j := 0; j < 6; j++ {
+			alpha = append(alpha, fmt.Sprintf("c06 m.dup %d %d", nsite(), r.Intn(5)))
+		}
+		if lossy {
+			alpha = append(alpha, fmt.Sprintf("c06 m.drop %d %d", nsite(), r.Intn(5)), fmt.Sprintf("c06 m.unrequest %d %d", nsite(), 1+r.Intn(4)),
+				fmt.Sprintf("c06 m.expire %d %d", nsite(), 1+r.Intn(4)))
+		}
+		for j := 0; j < 12+r.Intn(24); j++ {
+			ops = append(ops, alpha[r.Intn(len(alpha))])
+		}
+		for j := 0; j < 12; j++ {
+			for s := 0; s < c06nSites; s++ {
+				ops = append(ops, fmt.Sprintf("c06 m.deliver %d 0", s))
+			}
+		}
+		if lossy {
+			emit("nnet lossy", ops)
+		} else {
+			emit("nnet schedule", ops)
+		}
+	}
 	// random histories that also let trees expire: here the known finding can show up, so only the
 	// weaker oracle statements are checked and the model is compared
 	for i := 0; i < c.Pick(100, 1500); i++ {
@@ -1932,5 +1992,6 @@ func c06gen(c *h.Ctx, yield func(*h.Case)) {
 		"c06 marshal-rt 9 1", "c06 maketree T1,R1,1 1", "c06 strip 1 9", "c06 equal 1 9", "c06 frommarshal junk 1", "c06 frommarshal empty 9", "c06 binaryun junk x",
 		"c06 binaryun splice 9 1", "c06 binaryun", "c06 roster 2 2 0 3/-,5/6", "c06 tree 2 2 2 0/3:0", "c06 h.msg roster 2", "c06 h.msg resptree T1,R2,1;5/5:0 2", "c06 maketree X1,R1,1;3/3:0 1", "c06 h.msg tm T1,R1,1;3/3:1", "c06 h.msg frob 1", "c06 h.request x", "c06 h.reqfail", "c06 h.reqsend y", "c06 frob",
 		"c06 n.deliver C 0", "c06 n.deliver A", "c06 n.deliver A x", "c06 n.frob A 1", "c06 n.ask A 1 2", "c06 n.ask A x 1", "c06 n.register A 9", "c06 n.expire B y",
+		"c06 m.deliver 4 0", "c06 m.deliver 0", "c06 m.deliver 0 x", "c06 m.frob 0 1", "c06 m.ask 0 1 1 2", "c06 m.ask 0 0 1 1", "c06 m.ask 0 x 1 1", "c06 m.ask 0 1 1", "c06 m.register 0 9", "c06 m.expire 1 y",
 		"c06 sibling 9 3", "c06 sibling 1", "c06 sibling 1 99", "c06 sibling x 3", "c06 gtree 1 1 1 2 0", "c06 gtree 1 1 9 2 0 0/3:0", "c06 gtree 1 1 1 0 0 0/3:0", "c06 gtree 1 1 1 2 7 0/3:0", "c06 gtree 1 1 1 x 0 0/3:0"})
 }
